@@ -126,10 +126,97 @@ func TestReplayC11(t *testing.T) {
 	if p == "" {
 		t.Skip()
 	}
+	var tc TailCase
+	if err := loadReplay(p, &tc); err == nil && tc.W != nil {
+		f := fx.Get(tc.W.Fixture)
+		var o *Outcome
+		file, wo := writeWorkload(tc.W, "C11", false)
+		if wo != nil {
+			o = viol("C11/baseline", "%s", wo.Error())
+		} else if tc.Cut >= 0 && tc.Cut < len(file) {
+			o = checkPrefix("C11", f, file[:tc.Cut], len(file))
+			if o != nil && o.Key == "exempt" {
+				o = nil
+			}
+		}
+		replayResult(t, "C11", o)
+		return
+	}
 	var w Workload
 	if err := loadReplay(p, &w); err != nil {
 		t.Fatal(err)
 	}
 	o, _ := checkC11(&w, nil)
 	replayResult(t, "C11", o)
+}
+
+// TestC11Tail: a directed enumeration for the crash point "everything but the last few bytes arrived".
+// Files with many different footer lengths are built (1..45 row groups, 1..6 rows in the last one, padding
+// strings that move offsets across varint-length boundaries, 3 codecs) and every cut inside the last 16 bytes
+// is tried. Random files almost never have the footer length at which a reader that does not look at the
+// trailing magic mistakes the tail of the footer for a length field; a dense sweep does.
+func TestC11Tail(t *testing.T) {
+	nsh, idx := envInt("VERIF_NSHARDS", 1), envInt("VERIF_SHARDIDX", 0)
+	f := fx.Get("tiny")
+	maxG, maxPad := 45, 40
+	if os.Getenv("VERIF_TIER") != "thorough" {
+		maxG, maxPad = 30, 26
+	}
+	lens := map[int]bool{}
+	var n int64
+	k := 0
+	for g := 1; g <= maxG; g++ {
+		for r := 1; r <= 6; r++ {
+			for codec := 0; codec < 3; codec++ {
+				for pad := 0; pad < maxPad; pad++ {
+					k++
+					if k%nsh != idx {
+						continue
+					}
+					w := &Workload{Fixture: "tiny", PageSize: 100, Codec: codec}
+					for i := 0; i < g-1; i++ {
+						w.Records = append(w.Records, &vt.Val{F: []*vt.Val{{U: uint64(i)}, {S: vt.Bytes(bytes.Repeat([]byte("x"), pad*7))}, {}}})
+						w.Batches = append(w.Batches, 1)
+					}
+					for i := 0; i < r; i++ {
+						w.Records = append(w.Records, &vt.Val{F: []*vt.Val{{U: uint64(i)}, {Null: true}, {}}})
+					}
+					w.Batches = append(w.Batches, r)
+					var file []byte
+					if o := guard("C11", func() *Outcome {
+						var o *Outcome
+						file, o = writeWorkload(w, "C11", false)
+						return o
+					}); o != nil {
+						t.Fatalf("HARNESS SELF-CHECK FAILED: %s", o.Error())
+					}
+					lens[len(file)] = true
+					for cut := len(file) - 16; cut < len(file); cut++ {
+						if cut < 0 {
+							continue
+						}
+						o := checkPrefix("C11", f, file[:cut], len(file))
+						n++
+						if o != nil && o.Key != "exempt" {
+							o.Msg = fmt.Sprintf("[%d row groups, %d rows in the last one, %s, padding %d] %s", g, r, fx.CodecNames[codec], pad*7, o.Msg)
+							if isKnown("C11", o.Key) {
+								continue
+							}
+							saveFail("C11", &TailCase{W: w, Cut: cut}, o)
+							t.Fatalf("C11 violated: %s", o.Error())
+						}
+					}
+				}
+			}
+		}
+	}
+	recordX(statLine{P: "C11", H: fmt.Sprintf("tail-%d", idx), N: n, DN: n, L: []string{"tail-cuts(last-16-bytes)", fmt.Sprintf("distinct-file-lengths-in-shard=%d", len(lens))}}, func() interface{} {
+		return map[string]interface{}{"stage": "tail cuts", "files": n / 16, "cuts_per_file": 16}
+	})
+}
+
+// TailCase is a file plus one cut position.
+type TailCase struct {
+	W   *Workload `json:"w"`
+	Cut int       `json:"cut"`
 }
